@@ -812,3 +812,41 @@ func H_C07_yieldArgsContext() {
 	vfNote(out)
 	vfAssert(out == want+"|"+dot+"|root", "yield arguments see the caller's '.', the block body the explicit context")
 }
+
+// H_C07_nilDot (round 8): the template is executed with nil data, so '.' is not a value at
+// all: after each construct that rebinds '.' for its body (include / yield / block /
+// includeIfExists with a context, a range without variables, exec with a context) isset(.)
+// answers what it answered before the construct.
+//
+//gosym:reach checked
+func H_C07_nilDot() {
+	forms := []string{
+		`{{ include "/inc.jet" "ctx" }}`,
+		`{{ yield lib() "ctx" }}`,
+		`{{ block b() "ctx" }}<{{ . }}>{{ end }}`,
+		`{{ includeIfExists("/inc.jet", "ctx") }}`,
+		`{{ range one }}<{{ . }}>{{ end }}`,
+		`{{ exec("/inc.jet", "ctx") }}`,
+		`{{ yield wrap() "ctx" content }}<{{ . }}>{{ end }}`,
+	}
+	f := ndChoice("form", len(forms))
+	set := hxSet(nil,
+		"/m.jet", `{{ import "/lib.jet" }}{{ isset(.) }}|`+forms[f]+`|{{ isset(.) }}`,
+		"/lib.jet", `{{ block lib() }}<{{ . }}>{{ end }}{{ block wrap() }}{{ yield content }}{{ end }}`,
+		"/inc.jet", `<{{ . }}>`,
+	)
+	vars := make(VarMap)
+	vars.Set("one", []string{"e"})
+	out, err := hxExec(set, "/m.jet", vars, nil)
+	vfReach("checked")
+	vfAssert(err == nil, "renders")
+	vfNote(out)
+	first, last := "", ""
+	for i := 0; i < len(out) && out[i] != '|'; i++ {
+		first += string(out[i])
+	}
+	for i := len(out) - 1; i >= 0 && out[i] != '|'; i-- {
+		last = string(out[i]) + last
+	}
+	vfAssert(first == last, "'.' after the construct is what it was before it (nil data)")
+}
